@@ -42,10 +42,10 @@ func fnDisplayName(pkg, key string) string {
 }
 
 // generate builds all obligations of one function under contract.
-func generate(ld *Loaded, cs *Contracts, fc *FuncContract) *FuncResult {
+func generate(ld *Loaded, cs *Contracts, fc *FuncContract) (res *FuncResult) {
 	fn := ld.findFunc(fc.Pkg, fc.Key)
 	name := fnDisplayName(fc.Pkg, fc.Key)
-	res := &FuncResult{Name: name, Key: fc.Key, Pkg: fc.Pkg, Mode: fc.Mode, Props: fc.Props}
+	res = &FuncResult{Name: name, Key: fc.Key, Pkg: fc.Pkg, Mode: fc.Mode, Props: fc.Props}
 	cx := newCtx(fc.Mode, name)
 	if fc.Opts["strings"] == "smt" {
 		cx.strMode = true
@@ -131,6 +131,15 @@ func generate(ld *Loaded, cs *Contracts, fc *FuncContract) *FuncResult {
 		co := cx.oblige("vacuity", "exit-reachable", nrm.st.reach, tTrue, ex.pos(fn.Pos()), nil)
 		co.Name = name + "#vacuity:exit-reachable"
 		co.ExpectSat = true
+		for _, cl := range fc.GhostDefs {
+			env := ex.specEnv(nil, nrm.st, ex.entry)
+			for n, v := range ex.paramEntry {
+				env.vars[n] = v
+			}
+			bindResults(env, rvals, rnames)
+			cx.assume(implies(nrm.st.reach, env.evalBool(cl.Expr)))
+			cx.note("ghost definition (not a proof obligation) in %s: %s", name, cl.Src)
+		}
 		for _, cl := range fc.Ensures {
 			env := ex.specEnv(nil, nrm.st, ex.entry)
 			for n, v := range ex.paramEntry {
